@@ -198,13 +198,19 @@ func (w *World) Hold(n int) []core.Listener {
 }
 
 // Spawn starts a caller goroutine.
-func (w *World) Spawn() *Waiter {
+func (w *World) Spawn() *Waiter { return w.SpawnWith(nil) }
+
+// SpawnWith starts a caller goroutine after letting prep act on its fresh context (e.g. cancel it first).
+func (w *World) SpawnWith(prep func(ctx context.Context, cancel context.CancelFunc)) *Waiter {
 	w.mu.Lock()
 	wt := &Waiter{ID: len(w.Waiters)}
 	ctx, cancel := context.WithCancel(context.Background())
 	wt.Ctx, wt.Cancel = inject.WithCaller(ctx, wt.ID), cancel
 	w.Waiters = append(w.Waiters, wt)
 	w.mu.Unlock()
+	if prep != nil {
+		prep(wt.Ctx, cancel)
+	}
 	started := make(chan struct{})
 	go func() {
 		id := inject.GoID()
